@@ -843,7 +843,14 @@ func (m *Model) ruleTOMB(r *Results) {
 			k := key + " / insert-row"
 			switch {
 			case hasV && !hasT:
-				r.check(!isNullLit(val), rule, k, pos, "new row gets a bound body and the column default tombstone=0", "INSERT stores a NULL body but relies on the default tombstone=0")
+				if isNullLit(val) {
+					r.bad(rule, k, pos, "INSERT stores a NULL body but relies on the default tombstone=0")
+				} else if isParam(val) {
+					ok, what := m.boundNonNil(dw, val)
+					r.check(ok, rule, k, pos, "new row gets a body that is never nil ("+what+") and the column default tombstone=0", "the INSERT binds the body from Go ("+what+") and relies on the default tombstone=0: a nil body is stored as NULL with the flag saying 'live' - reads report the key missing while inserts, feeds and GetWithXattrs treat it as a live document; derive the flag from the bound body (tombstone = (?N IS NULL))")
+				} else {
+					r.ok(rule, k, pos, "new row gets a computed body and the column default tombstone=0")
+				}
 			case hasV && hasT:
 				m.checkTombPair(r, rule, k, pos, dw, val, tomb)
 			case !hasV && hasT:
@@ -876,7 +883,73 @@ func (m *Model) ruleTOMB(r *Results) {
 			}
 		}
 	}
+	m.tombFlagFromCallers(r, rule)
 	r.floor(rule, 9)
+}
+
+// tombFlagFromCallers: a writer that builds its event from parameters (the with-meta writer:
+// body and deletion flag are both handed in) relies on its callers to keep the two in step. For
+// every call of it: a constant flag "not a deletion" needs a body that is never nil, a constant
+// flag "deletion" needs a nil body; a computed flag must be the nil-test of the body passed.
+func (m *Model) tombFlagFromCallers(r *Results, rule string) {
+	w := m.A.WithMetaFn
+	ftab, _ := m.eventFieldTable()
+	if w == nil || ftab == nil || ftab["value"] == nil || ftab["tombstone"] == nil {
+		return
+	}
+	// which parameters reach the event's body and flag fields
+	bodyIdx, flagIdx := -1, -1
+	te0 := m.newTermEval()
+	for _, K := range w.AnonFuncs {
+		fields, has, _ := m.eventAtReturns(te0, K)
+		if !has {
+			continue
+		}
+		for i, p := range w.Params {
+			pname := m.declName(w) + "." + p.Name()
+			if t := fields[ftab["value"]]; t != nil && t.Kind == "param" && t.Name == pname {
+				bodyIdx = i
+			}
+			if t := fields[ftab["tombstone"]]; t != nil && t.Kind == "param" && t.Name == pname {
+				flagIdx = i
+			}
+		}
+	}
+	if bodyIdx < 0 || flagIdx < 0 {
+		return // the writer derives the flag itself
+	}
+	for _, cl := range m.staticCallersOf(w) {
+		args := cl.Common().Args
+		if bodyIdx >= len(args) || flagIdx >= len(args) {
+			continue
+		}
+		caller := cl.Parent()
+		te := m.newTermEval()
+		body := te.term(args[bodyIdx], cl, m.closureFrame(caller))
+		flag := te.term(args[flagIdx], cl, m.closureFrame(caller))
+		ok := true
+		why := ""
+		for _, fa := range flag.alts() {
+			switch {
+			case isZeroTerm(fa): // "not a deletion"
+				for _, ba := range body.alts() {
+					if !termNonNil(ba) {
+						ok, why = false, "the flag says 'not a deletion' but the body passed ("+body.String()+") may be nil"
+					}
+				}
+			case fa.Kind == "const" && fa.Name == "true":
+				for _, ba := range body.alts() {
+					if !isZeroTerm(ba) {
+						ok, why = false, "the flag says 'deletion' but a body ("+body.String()+") is passed"
+					}
+				}
+			case fa.Kind == "binop" && fa.Name == "==" && len(fa.Args) == 2 && isZeroTerm(fa.Args[1]) && termsEqual(fa.Args[0], body):
+			default:
+				ok, why = false, "the flag ("+flag.String()+") is not derived from the body passed"
+			}
+		}
+		r.check(ok, rule, m.declName(caller)+" / body and deletion flag handed to "+m.declName(w)+" agree", m.instrPos(cl), "flag "+flag.String()+" with body "+body.String(), why+": the row is stored with a body-less 'live' flag (or a tombstone flag with a body), and the observers of C05 disagree about it")
+	}
 }
 
 func (m *Model) checkTombPair(r *Results, rule, k, pos string, dw *docWrite, val, tomb *sqlp.Expr) {
@@ -887,7 +960,12 @@ func (m *Model) checkTombPair(r *Results, rule, k, pos string, dw *docWrite, val
 	case isNullLit(val):
 		r.bad(rule, k, pos, "value=NULL but tombstone is %s", tomb)
 	case isParam(val) && tIsLit:
-		r.check(tn == 0, rule, k, pos, "bound body together with tombstone=0", "statement stores a body but sets tombstone=1")
+		if tn != 0 {
+			r.bad(rule, k, pos, "statement stores a body but sets tombstone=1")
+			break
+		}
+		ok, what := m.boundNonNil(dw, val)
+		r.check(ok, rule, k, pos, "bound body that is never nil ("+what+") together with tombstone=0", "the statement binds the body from Go ("+what+") and sets tombstone=0 whatever it is: a nil body is stored as NULL with the flag saying 'live' - reads report the key missing while inserts, feeds and GetWithXattrs treat it as a live document; derive the flag from the bound body (tombstone = (?N IS NULL))")
 	case isParam(val) && isParam(tomb):
 		// both bound: the Go side must derive the flag from the same event (checked by R-EVT-PAIR/R-TOMB-GO)
 		ok, why := m.tombParamFromDeletionFlag(dw, val, tomb)
@@ -902,6 +980,23 @@ func (m *Model) checkTombPair(r *Results, rule, k, pos string, dw *docWrite, val
 			r.bad(rule, k, pos, "cannot see that tombstone (%s) agrees with value (%s)", tomb, val)
 		}
 	}
+}
+
+// boundNonNil: the Go value bound to the body parameter is never nil (every alternative of its
+// term is a string conversion, a formatter result or a constant).
+func (m *Model) boundNonNil(dw *docWrite, val *sqlp.Expr) (bool, string) {
+	site := dw.siteFor("value")
+	b, ok := site.bindingFor(val)
+	if !ok || b.V == nil {
+		return false, "unbound parameter"
+	}
+	t := m.newTermEval().term(b.V, site.Call, m.closureFrame(site.Fn))
+	for _, alt := range t.alts() {
+		if !termNonNil(alt) {
+			return false, "may be nil: " + t.String()
+		}
+	}
+	return true, t.String()
 }
 
 func isLitN(e *sqlp.Expr, n int) bool { v, ok := litInt(e); return ok && v == n }
